@@ -56,6 +56,12 @@ class _PintParser(fp.Parser[PintRootBlock, ParserConfig]):
         if self._diskcache is None:
             return super().parse_file(path)
         content, _basename = self._diskcache.load(path, super().parse_file)
+        # The cache is keyed by content: a file with the same text elsewhere gets
+        # the parse of the first one, whose location (used to resolve relative
+        # @import) is the other file's. Parse such a twin on its own.
+        opening = content.parsed_source.opening
+        if getattr(opening, "path", path) != path:
+            return super().parse_file(path)
         return content
 
 
